@@ -159,6 +159,25 @@ func faults(base *dt.File) []fault {
 			add("second-"+k.Kw, t, "the directive has already been defined")
 		}
 	}
+	// second Description of a TAG, an HTTP method, a JSON-RPC method
+	for _, p := range findAll(base.Nodes, kw("Description")) {
+		if len(p) < 2 {
+			continue
+		}
+		par := nodeAt(base, p[:len(p)-1])
+		if par.Kw == "INFO" {
+			continue
+		}
+		t := base.Clone()
+		pn := nodeAt(t, p[:len(p)-1])
+		c := nodeAt(t, p).Clone()
+		clearIDs(c)
+		// directly after the first one
+		idx := p[len(p)-1]
+		rest := append([]*dt.Node{}, pn.Kids[idx+1:]...)
+		pn.Kids = append(append(pn.Kids[:idx+1:idx+1], mark(c)), rest...)
+		add("second-Description-in-"+par.Kind(), t, "the directive has already been defined")
+	}
 	// second Query / Request body / Headers
 	for _, p := range findAll(base.Nodes, kw("Query")) {
 		t := base.Clone()
@@ -286,6 +305,9 @@ func faults(base *dt.File) []fault {
 		t := base.Clone()
 		appendRoot(t, mark(dt.N("TYPE")).WithBody(dt.SchemaBody, []string{"{}"}))
 		add("missing-parameter-TYPE", t, "required parameter(s) not specified", "The type name \"\" is not valid")
+		t = base.Clone()
+		appendRoot(t, mark(dt.N("TYPE", "any")))
+		add("missing-parameter-TYPE-any", t, "required parameter(s) not specified", "The type name \"\" is not valid")
 		t = base.Clone()
 		appendRoot(t, mark(dt.N("ENUM")).WithBody(dt.EnumBody, []string{"[1, 2]"}))
 		add("missing-parameter-ENUM", t, "required parameter(s) not specified")
